@@ -12,8 +12,22 @@ if not os.path.isdir(W):
 sh('git -C %s checkout -q --detach $(git -C /repo rev-parse HEAD); git -C %s checkout -q -- .' % (W, W))
 rows = []
 extra = {'C01-2': ['C02'], 'C17-3': ['C08']}
-for d in sorted(os.listdir(V + '/seeded')):
+ONLY = sys.argv[1:]
+prev = {}
+if ONLY and os.path.exists(V + '/seeded/RESULTS.md'):
+    for l in open(V + '/seeded/RESULTS.md'):
+        m = re.match(r'\| (C\d+-\d+) \| ([^|]+) \| ([^|]*) \|', l)
+        if m:
+            prev[m.group(1)] = (m.group(1), m.group(2).strip(), [x for x in m.group(3).strip().split(', ') if x])
+def _key(d):
+    a, b = d.split('-')[:2]
+    return (a, int(b)) if b.isdigit() else (a, 0)
+for d in sorted([x for x in os.listdir(V + '/seeded') if re.match(r'C\d+-\d+$', x)], key=_key):
     p = '%s/seeded/%s' % (V, d)
+    if ONLY and not any(d == o or d.startswith(o + '-') for o in ONLY):
+        if d in prev:
+            rows.append(prev[d])
+        continue
     if not os.path.isfile(p + '/patch.diff'):
         continue
     pid = d.split('-')[0]
